@@ -13,6 +13,7 @@ Encodings (stated in every evidence file):
 from __future__ import annotations
 
 import itertools
+from fractions import Fraction
 import z3
 
 # --------------------------------------------------------------------------------------------------------
@@ -314,7 +315,9 @@ SQRT = z3.Function("sqrt", z3.RealSort(), z3.RealSort())
 
 
 def real_pow(base, exp):
-    """base ** exp over the reals: exact for small concrete natural exponents, else the uninterpreted POW."""
+    """base ** exp over the reals: exact for small concrete natural exponents, x ** 0.5 is sqrt(x), else the uninterpreted POW."""
+    # NOTE: x ** 0.5 stays POW(x, 1/2); the link POW(x, 1/2) = sqrt(x) is added per obligation as an axiom instance
+    # (`pow_axioms`), so that a symbolic exponent that equals 1/2 only under the path condition is linked as well.
     if z3.is_int_value(exp) or z3.is_rational_value(exp):
         q = exp.as_fraction() if z3.is_rational_value(exp) else None
         n = exp.as_long() if z3.is_int_value(exp) else (q.numerator if q.denominator == 1 else None)
@@ -712,7 +715,15 @@ def sqrt_axioms(*formulas):
         if z3.is_app(t) and t.decl().name() == "sqrt" and t.num_args() == 1:
             args[t.arg(0).get_id()] = t.arg(0)
         stack.extend(t.children())
-    return [z3.Implies(x >= 0, z3.And(SQRT(x) >= 0, SQRT(x) * SQRT(x) == x)) for x in args.values()]
+    ax = [z3.Implies(x >= 0, z3.And(SQRT(x) >= 0, SQRT(x) * SQRT(x) == x)) for x in args.values()]
+    # derived fact (lemma `sqrt-of-quotient`, discharged separately from the two axioms above): for a sqrt whose argument is a
+    # quotient A/B with A >= 0, B > 0:  sqrt(A/B) = sqrt(A)/sqrt(B)
+    for x in list(args.values()):
+        if z3.is_app(x) and x.decl().kind() == z3.Z3_OP_DIV:
+            A, B = x.children()
+            ax.append(z3.Implies(z3.And(A >= 0, B > 0), z3.And(SQRT(x) == SQRT(A) / SQRT(B), SQRT(B) > 0, SQRT(A) >= 0,
+                                                              SQRT(A) * SQRT(A) == A, SQRT(B) * SQRT(B) == B)))
+    return ax
 
 
 def div_axioms(*formulas):
@@ -744,4 +755,25 @@ def div_axioms(*formulas):
         if b1.get_id() == b2.get_id():
             ax.append(z3.Implies(z3.And(b1 > 0, a1 <= a2), a1 / b1 <= a2 / b1))
             ax.append(z3.Implies(z3.And(b1 > 0, a1 + b1 <= a2), a1 / b1 + 1 <= a2 / b1))
+    return ax
+
+
+def pow_axioms(*formulas):
+    """x ** (1/2) is sqrt(x): instance for every pow(b, e) application in the formulas (e may be symbolic)."""
+    seen, apps, stack = set(), {}, [z3.simplify(f) for f in formulas]
+    while stack:
+        t = stack.pop()
+        if t.get_id() in seen:
+            continue
+        seen.add(t.get_id())
+        if z3.is_quantifier(t):
+            continue
+        if z3.is_app(t) and t.decl().name() == "pow" and t.num_args() == 2:
+            apps[t.get_id()] = t
+        stack.extend(t.children())
+    ax = []
+    for t in list(apps.values())[:24]:
+        b, e = t.arg(0), t.arg(1)
+        ax.append(z3.Implies(e == z3.RealVal("1/2"), t == SQRT(b)))
+        ax.append(z3.Implies(b >= 0, z3.And(SQRT(b) >= 0, SQRT(b) * SQRT(b) == b)))
     return ax
